@@ -48,9 +48,10 @@ def resolve(target):
         obj = inspect.getattr_static(obj, part) if inspect.isclass(obj) else getattr(obj, part)
     if isinstance(obj, (staticmethod, classmethod)):
         obj = obj.__func__
+    obj = unwrap(obj)
     if not inspect.isfunction(obj):
         raise TargetMissing(f"{target}: not a function")
-    return owner, unwrap(obj)
+    return owner, obj
 
 
 @dataclass
